@@ -116,7 +116,7 @@ def amplifier(rng):
         form = rng.choice([b'[x](y %s=%s)\n', b'[x]: y %s=%s\n\n[x]\n', b'![x](y "t" %s=%s)\n', b'[x]: y "t" %s=%s\n\n![x][]\n', b'[x](<y> %s=%s)\n'])
         return form % (key, val)
     if k == 2:      # long urls / labels
-        n = rng.choice([99, 100, 101, 999, 1000, 1001, 1100, 1101, 2000, 5000])
+        n = rng.choice([99, 100, 101, 127, 128, 129, 200, 255, 256, 257, 300, 500, 507, 508, 511, 512, 513, 600, 800, 990, 995, 996, 999, 1000, 1001, 1023, 1024, 1100, 1101, 2000, 4095, 4096, 5000])
         u = b'u' * n
         return rng.choice([b'![a](%s.png)\n', b'[a](%s)\n', b'[a]: %s\n\n[a]\n', b'{{%s}}\n', b'<http://%s>\n', b'# %s #\n', b'[^%s]\n', b'x: %s\n\nb\n']) % u
     if k == 3:      # empty labels and bracket forms without parens
